@@ -3,12 +3,37 @@ package main
 import (
 	"fmt"
 	"os"
+	"runtime"
+	"sync"
+
+	"github.com/pinealctx/neptune/ds/tree"
 	"strconv"
 	"strings"
 
 	"nvharness/lib/corr"
 	"nvharness/lib/rng"
 )
+
+// eagerPrealloc probes (once) whether the wrapper sizes its result by the requested limit: a scan of a one-item tree with
+// limit 2^20 either allocates 16 MB or it does not. Limits the implementation might really allocate (2^24 … 2^42
+// cells: tens of GB to TB of address space, minutes of page faults) are only put into scripts when it does not —
+// the eager shape is reported through the limits that fail at once (2^42+1, MaxInt64-1, MaxInt64).
+var eagerPrealloc = func() func() bool {
+	var once sync.Once
+	var eager bool
+	return func() bool {
+		once.Do(func() {
+			b := tree.NewBTree()
+			b.Insert(kv{1, 1})
+			var m0, m1 runtime.MemStats
+			runtime.ReadMemStats(&m0)
+			_ = b.AscendGte(kv{k: 0}, func(tree.Node) bool { return true }, 1<<20)
+			runtime.ReadMemStats(&m1)
+			eager = m1.TotalAlloc-m0.TotalAlloc >= 8<<20
+		})
+		return eager
+	}
+}()
 
 var scanNames = []string{"asc", "ascge", "ascgt", "asclt", "ascrange", "desc", "descle", "desclt", "descgt", "descrange"}
 
@@ -256,8 +281,8 @@ func genWrapper(r *rng.R, tier string) corr.Case {
 			if r.Chance(1, 10) {
 				// "no limit" idioms and other large limits: the result is still the few matching items
 				ns = r.Pick("4398046511105", "9223372036854775806", "9223372036854775807", "9223372036854775807", "4611686018427387904")
-				if r.Chance(1, 8) {
-					ns = r.Pick("2147483647", "1099511627776") // may really be allocated: one per script (a second one is `bad-op`)
+				if r.Chance(1, 8) && !eagerPrealloc() {
+					ns = r.Pick("2147483647", "1099511627776") // one per script (a second one is `bad-op`)
 				}
 			}
 			lines = append(lines, fmt.Sprintf("wscan %s %d %s %s", r.Pick("gte", "gt", "lte", "lt"), r.Range(-2, K+2), randFilter(r, K), ns))
@@ -490,7 +515,9 @@ func fixedCases() []corr.Case {
 	for _, lim := range []string{"4398046511105", "9223372036854775806", "9223372036854775807"} {
 		w = append(w, "wscan gte 0 all "+lim, "wscan lt 3 all "+lim)
 	}
-	w = append(w, "wscan gt 0 all 2147483647", "wscan lte 3 all 2147483647")
+	if !eagerPrealloc() {
+		w = append(w, "wscan gt 0 all 2147483647", "wscan lte 3 all 1099511627776")
+	}
 	w = append(w, "wupd 2 2 3", "wget 2", "wupd 2 9 4", "wget 2", "wget 9", "wins 5 5", "wupd 5 9 6", "wlen", "wscan gte 0 all 10", "wscan gt 9 all 10", "wscan lt 5 all 10", "wscan lte 9 none 3")
 	cs = append(cs, corr.Case{Tag: "fixed-boundary", Lines: w})
 	// full sweeps on dense trees: every degree, every scan, every pivot, three callbacks
@@ -529,7 +556,7 @@ func fixedCases() []corr.Case {
 		corr.Case{Tag: "fixed-regress", Lines: []string{"new 2", "ins 0 1 1", "ins 0 2 2", "ins 0 3 3", "ins 0 4 4", "chk 0", "ins 0 5 5", "ins 0 6 6", "chk 0", "clone 0", "del 1 3", "chk 0", "chk 1", "scan 0 asc - - all", "del 0 1", "del 0 2", "chk 0", "len 0", "scan 1 asc - - all"}},
 		// "no limit" passed as the largest int (audit finding 1)
 		corr.Case{Tag: "fixed-limit", Lines: []string{"neww", "wins 1 1", "wins 2 2", "wins 3 3", "wins 4 4", "wins 5 5",
-			"wscan gte 0 all 9223372036854775807", "wscan lte 4 mod3 9223372036854775806", "wscan gt 2 all 4398046511105", "wscan lt 5 odd 2147483647", "wlen", "wchk"}},
+			"wscan gte 0 all 9223372036854775807", "wscan lte 4 mod3 9223372036854775806", "wscan gt 2 all 4398046511105", "wlen", "wchk"}},
 		// the interleaving of seeded change C03-4: Update parked in its lookup, Delete of the same key queued behind it
 		corr.Case{Tag: "fixed-race", Lines: []string{"neww", "wins 1 1", "wins 2 2", "wins 3 3", "wrace 1 upd 2 20 7 / del 2", "wchk", "wlen",
 			"wrace 1 upd 1 21 8 / upd 1 22 9", "wchk", "wrace 2 del 3 / ups 3 5 10", "wrace 1 get 5 / del 5", "wrace 9 upd 21 4 11 / ins 21 12", "wlen"}},
